@@ -527,6 +527,43 @@ def rule_d(ctx: Context, R: Reporter):
             R.check("C08.d", f"import `{name}` restores exported key '{k}' into self.{k}", okk, m, m.node,
                     msg=f"{m.short}: nothing stores the dictionary's '{k}' into self.{k} (in {[f.short for (f, p) in group]}): a saved '{k}' is not restored",
                     key=f"import:{name}:{k}")
+    # a key filter on the way in keeps every key of the section it guards: `if key in K:` around a store into
+    # self.<section>[key] needs K to contain all keys <section> is created with
+    from .c07 import _const_set
+
+    sc0 = state_class(ctx)
+    init = sc0.methods.get("__init__")
+    section_keys: Dict[str, Set[str]] = {}
+    if init is not None:
+        for x in walk_no_nested(init.node):
+            if isinstance(x, ast.Assign) and len(x.targets) == 1 and isinstance(x.targets[0], ast.Attribute) and isinstance(x.targets[0].value, ast.Name) and x.targets[0].value.id == "self":
+                v = x.value
+                ks = None
+                if isinstance(v, ast.Call) and isinstance(v.func, ast.Attribute) and v.func.attr == "fromkeys" and v.args:
+                    ks = _const_set(sc0.module, v.args[0])
+                elif isinstance(v, ast.DictComp) and len(v.generators) == 1:
+                    ks = _const_set(sc0.module, v.generators[0].iter)
+                if ks:
+                    section_keys[x.targets[0].attr] = ks
+    for name, m in imports.items():
+        for (f, param) in _import_helpers(ctx, m):
+            fl = flow_of(f.node)
+            for nd in fl.cfg.stmt_nodes():
+                if nd.kind != "stmt" or not isinstance(nd.stmt, ast.Assign) or not isinstance(nd.stmt.targets[0], ast.Subscript):
+                    continue
+                t = nd.stmt.targets[0]
+                if not (isinstance(t.value, ast.Attribute) and t.value.attr in section_keys and isinstance(t.slice, ast.Name)):
+                    continue
+                kv = t.slice.id
+                for (tt, pol) in conds_holding_at(fl.cfg, nd):
+                    if pol and isinstance(tt, ast.Compare) and len(tt.ops) == 1 and isinstance(tt.ops[0], ast.In) and isinstance(tt.left, ast.Name) and tt.left.id == kv:
+                        allowed = _const_set(f.module, tt.comparators[0])
+                        if allowed is None:
+                            continue
+                        missing = sorted(section_keys[t.value.attr] - allowed)
+                        R.check("C08.d", f"{f.short}: the key filter of section `{t.value.attr}` admits every key of that section", not missing, f, tt,
+                                msg=f"{f.short}: `{unparse(tt)}` guards the restore of self.{t.value.attr} but lacks {missing}: those quantities are silently dropped on load "
+                                    f"(the restored particle state differs from the saved one)", key=f"import-filter:{f.short}:{t.value.attr}")
     # the checkpoint writer(s) of the core write every key the loader consumes
     sc = state_class(ctx)
     written: Dict[str, Set[str]] = {}
@@ -768,7 +805,48 @@ def rule_f(ctx: Context, R: Reporter):
                                     ok = True
                 R.check("C08.f", "periodic save fires when (iter - t0) % save_every == 0", ok, fi, call,
                         msg=f"{fi.short}: periodic checkpoint condition is not `(iter - t0) % save_every == 0`", key=f"cadence:{fi.short}")
+                # a periodic checkpoint holds whole iterations: it is never written between the step that advances the
+                # iteration counter and the commit of that iteration to the history
+                adv = [x for x in cfg.stmt_nodes() for c2 in calls_in_node(x) for t2 in ctx.res.call_targets(fi, c2)
+                       if isinstance(t2, FuncInfo) and "iter" in ctx.state.transitive_writes(ctx.cg, t2) and t2.cls is not sc]
+                com = [x for x in cfg.stmt_nodes() for c2 in calls_in_node(x) for t2 in ctx.res.call_targets(fi, c2)
+                       if isinstance(t2, FuncInfo) and t2.cls is sc and any(isinstance(y, ast.Call) and isinstance(y.func, ast.Attribute) and y.func.attr == "append" and "_history" in norm_text(y.func.value) for y in ast.walk(t2.node))]
+                if adv and com:
+                    between = any(cfg.reaches(a_.id, n.id) and a_.id != n.id for a_ in adv) and any(cfg.reaches(n.id, c_.id) and c_.id != n.id for c_ in com) \
+                        and not any(cfg.reaches(c_.id, n.id) for c_ in com)
+                    R.check("C08.f", "a periodic checkpoint is not written between the advance of the iteration counter and the commit", not between, fi, call,
+                            msg=f"{fi.short}: `{unparse(call)[:50]}` runs after the iteration counter has advanced but before the iteration is committed: the file carries iter = k with "
+                                f"k-1 committed batches, and a run resumed from it never records iteration k", key=f"save-inside-iteration:{fi.short}")
     R.floor("C08.f", "save call sites wired to save_every", n_sites, 2)
+
+
+def rule_j(ctx: Context, R: Reporter):
+    """C08.j  saving works for any output location: the writer reachable from a run
+    creates the checkpoint's parent directory with parents=True, exist_ok=True."""
+    sc = state_class(ctx)
+    n = 0
+    for (fi, dump, nm) in dumpers(ctx):
+        if fi.cls is sc:
+            continue  # the state manager's own save_state is not used by runs
+        mk = [c for c in calls_in(fi.node) if isinstance(c.func, ast.Attribute) and c.func.attr == "mkdir"] + \
+             [c for c in calls_in(fi.node) if (ctx.res.external_name(fi, c) or "") in ("os.makedirs", "os.mkdir")]
+        n += 1
+        if not mk:
+            R.check("C08.j", f"{fi.short} creates the checkpoint directory", False, fi, dump,
+                    msg=f"{fi.short}: the checkpoint's parent directory is never created: the first save into a new output_dir raises FileNotFoundError", key=f"mkdir:{fi.short}")
+            continue
+        for c in mk:
+            en = ctx.res.external_name(fi, c) or ""
+            if en == "os.mkdir":
+                ok = False
+            elif en == "os.makedirs":
+                ok = any(k.arg == "exist_ok" and const_value(k.value) is True for k in c.keywords)
+            else:
+                ok = any(k.arg == "parents" and const_value(k.value) is True for k in c.keywords) and any(k.arg == "exist_ok" and const_value(k.value) is True for k in c.keywords)
+            R.check("C08.j", f"{fi.short} creates the checkpoint directory with all missing levels", ok, fi, c,
+                    msg=f"{fi.short}: `{unparse(c)[:60]}` creates one directory level only (or fails if it exists): with a nested output_dir such as 'project/run_001' the first "
+                        f"periodic or final checkpoint raises and aborts the run", key=f"mkdir:{fi.short}")
+    R.floor("C08.j", "run-time checkpoint writers", n, 1)
 
 
 def rule_g(ctx: Context, R: Reporter):
@@ -1004,6 +1082,7 @@ def run(ctx: Context, R: Reporter):
     R.guard(rule_e, ctx, R)
     R.guard(rule_f, ctx, R)
     R.guard(rule_i, ctx, R)
+    R.guard(rule_j, ctx, R)
 
 
 def variants():
